@@ -284,7 +284,7 @@ Definition unbond_v (h : Z) (a sh : Z) (v : vstate) : res (vstate * Z) :=
 
 (* ---------- x/staking/precompile/transfer_shares.go: handlerTransferShares ---------- *)
 (* `recv` = HasReceivingRedelegation(from, validator).  Statement order is the code's:
-   validator and fromDel are read first; from's rewards are withdrawn; toDel is read (and to's rewards
+   sender == recipient is refused; validator and fromDel are read; from's rewards are withdrawn; toDel is read (and to's rewards
    withdrawn, or the period ended) BEFORE fromDel is written back; then from is written, then to.
    The three blocks of the function body are named so that the proofs can speak about them. *)
 
@@ -325,7 +325,10 @@ Definition ts_write_to (h tok vsh to toDel shares : Z) (toFound : bool) (v3 : vs
     Ok (set_start (kset to {| si_prev := si_prev toSI; si_stake := stake;
                               si_height := si_height toSI |} (v_start v4)) v4).
 
-Definition transfer_shares (h : Z) (recv : bool) (from to x : Z) (v : vstate) : res vstate :=
+(* the body of handlerTransferShares below its first statement — which is also the whole function as it
+   was before commit 458669b ("pre-fix"): without the sender <> recipient guard the stale toDel made a
+   transfer to oneself inflate the delegation (docs/findings/C11-1.md) *)
+Definition transfer_shares_prefix (h : Z) (recv : bool) (from to x : Z) (v : vstate) : res vstate :=
   let tok := v_tokens v in
   let vsh := v_shares v in
   match kget from (v_dels v) with
@@ -345,6 +348,10 @@ Definition transfer_shares (h : Z) (recv : bool) (from to x : Z) (v : vstate) : 
           _ <- tokens_from_shares tok vsh shares ;;
           Ok v5
   end.
+
+(* handlerTransferShares as it is now: `if from == to { return error }` comes first *)
+Definition transfer_shares (h : Z) (recv : bool) (from to x : Z) (v : vstate) : res vstate :=
+  if from =? to then Err else transfer_shares_prefix h recv from to x v.
 
 (* ---------- staking/keeper/slash.go (infraction height = current height) + distribution hook ---------- *)
 Definition power_reduction : Z := 100 * prec.     (* fx-core: 100 FX per unit of consensus power *)
